@@ -1,3 +1,4 @@
+import Rb.Iter
 import Rb.Root
 import Rb.RootDel
 import Rb.Map
@@ -81,6 +82,30 @@ theorem findLE_spec :
     ∀ (t : Tree) (k : Nat) (hs : SortedKV t.toList),
     findLE t k = t.toList.reverse.find? (fun e => decide (e.2.1 ≤ k)) :=
   @RbM.findLE_spec
+end
+
+section
+open RbM
+open Tree Color
+
+/-- size, minimum, maximum, membership against the sorted in-order list -/
+theorem size_spec : ∀ (t : Tree), t.size = t.toList.length := @RbM.size_spec
+theorem minId_spec : ∀ (t : Tree), t.minId = (t.toList.head?.map (·.1)).getD 0 := @RbM.minId_spec
+theorem maxId_spec : ∀ (t : Tree), t.maxId = (t.toList.getLast?.map (·.1)).getD 0 := @RbM.maxId_spec
+theorem get_spec :
+    ∀ (t : Tree) (k : Nat) (hs : SortedKV t.toList),
+    get t k = (t.toList.find? (fun e => decide (e.2.1 = k))).map (·.2.2) :=
+  @RbM.get_spec
+
+/-- in-order and reverse iteration walk the sorted list one position at a time -/
+theorem next_spec :
+    ∀ (t : Tree) (hs : SortedKV t.toList) (i : Nat) (e : Ent) (he : t.toList[i]? = some e),
+    next t e.2.1 = t.toList[i + 1]? :=
+  @RbM.next_spec
+theorem prev_spec :
+    ∀ (t : Tree) (hs : SortedKV t.toList) (i : Nat) (e : Ent) (he : t.toList[i]? = some e),
+    prev t e.2.1 = if i = 0 then none else t.toList[i - 1]? :=
+  @RbM.prev_spec
 end
 
 end Props.C05
